@@ -125,7 +125,7 @@ func swapCase(p string) string {
 
 func TestC06(t *testing.T) {
 	r := ev.Start("C06", "exploration")
-	r.Rule("pairs of distinct partition ids (A,B) generated from the key-id naming scheme (B = A + _service_product[_region], prefixes, suffixes, case, case-fold twins and unicode variants, ids that would match the other id if ids were interpreted as patterns (regex / glob / LIKE metacharacters), ids embedding _IK_/_SK_, 255-byte ids, random ids; service/product with and without underscores), each executed through the real decrypt path in both directions on one factory: records produced for A are decrypted through a session for B in cold, warm and shared-IK-cache-already-holding-A's-key states, over a plain metastore, a suffix-advertising wrapper and the real DynamoDB v1/v2 metastores with region suffix over the fake. Every foreign record is presented three times in a row (once more after one of the session's own records). Oracle: err != nil each time. Empty partition id must be refused. Companion cases (same partition across region suffixes, legacy unsuffixed ids) are executed and only counted. Distinct+non-trivial: distinct (service, product, A, B, store, cache state) tuples that reached the partition guard.")
+	r.Rule("pairs of distinct partition ids (A,B) generated from the key-id naming scheme (B = A + _service_product[_region], prefixes, suffixes, case, case-fold twins and unicode variants, ids that would match the other id if ids were interpreted as patterns (regex / glob / LIKE metacharacters), ids embedding _IK_/_SK_, 255-byte ids, random ids; service/product with and without underscores), each executed through the real decrypt path in both directions on one factory: records produced for A are decrypted through a session for B in cold, warm and shared-IK-cache-already-holding-A's-key states, over a plain metastore, a suffix-advertising wrapper and the real DynamoDB v1/v2 metastores with region suffix over the fake. Every foreign record is presented three times in a row (once more after one of the session's own records). Oracle: err != nil each time. Empty partition id must be refused. A lifecycle pass uses sessions after Close, closes them twice and interleaves sessions of other partitions: no session ever returns plaintext for another partition's record. Companion cases (same partition across region suffixes, legacy unsuffixed ids) are executed and only counted. Distinct+non-trivial: distinct (service, product, A, B, store, cache state) tuples that reached the partition guard.")
 	r.Assume("region suffixes are AWS region names (no underscores)")
 	nBase := ev.Pick(14, 400)
 	rng := rand.New(rand.NewSource(ev.Seed()))
@@ -281,6 +281,7 @@ func TestC06(t *testing.T) {
 			}
 		}
 	}
+	lifecyclePass(r)
 	companionCrossRegion(r)
 	r.Finish(t)
 }
@@ -330,3 +331,80 @@ func companionCrossRegion(r *ev.Run) {
 }
 
 var _ = synctest.Wait
+
+// lifecyclePass: whatever callers do with session lifecycles - use a session after closing it, close it twice, open
+// and close sessions of other partitions in between - a session handed out for partition A never returns plaintext
+// for a record of partition B (it may fail, also for its own records, once it has been closed).
+func lifecyclePass(r *ev.Run) {
+	ctx := context.Background()
+	crypto := aead.NewAES256GCM()
+	static, _ := kms.NewStatic("thisIsAStaticMasterKeyForTesting", crypto)
+	defer static.Close()
+	cfgs := []world.Cfg{world.Default(time.Hour, time.Hour, time.Minute)}
+	sh := world.Default(time.Hour, time.Hour, time.Minute)
+	sh.SharedIK, sh.IKPolicy, sh.IKCap = true, "lru", 4
+	sc := world.Default(time.Hour, time.Hour, time.Minute)
+	sc.SessCache, sc.SessCap = true, 2
+	nc := world.Default(time.Hour, time.Hour, time.Minute)
+	nc.CacheIK, nc.CacheSK = false, false
+	cfgs = append(cfgs, sh, sc, nc)
+	for _, sk := range storeKinds()[:2] {
+		for ci, cfg := range cfgs {
+			journal(fmt.Sprintf("C06 lifecycle store=%s cfg=%d", sk.name, ci))
+			f := appencryption.NewSessionFactory(&appencryption.Config{Service: "svc", Product: "prod", Policy: cfg.Policy()}, sk.mk(), static, crypto)
+			parts := []string{"alice", "bob", "carol"}
+			recs := map[string]*appencryption.DataRowRecord{}
+			for _, p := range parts {
+				s, _ := f.GetSession(p)
+				d, err := s.Encrypt(ctx, []byte("secret of "+p))
+				if err != nil {
+					panic(err)
+				}
+				recs[p] = d
+				s.Close()
+			}
+			foreign := func(s *appencryption.Session, own, other, what string) {
+				func() {
+					defer func() { _ = recover() }() // a panic on a closed session is C07's business, not a leak
+					out, err := s.Decrypt(ctx, *world.CopyDRR(recs[other]))
+					r.Eval(1)
+					if err == nil {
+						r.Violation("c06-foreign-decrypt:lifecycle", fmt.Sprintf("store=%s cfg=%s: %s: the session handed out for partition %q returned %d plaintext bytes for a record of partition %q", sk.name, cfg, what, own, len(out), other),
+							map[string]any{"store": sk.name, "session_partition": own, "record_partition": other, "sequence": what})
+					}
+				}()
+			}
+			rounds := ev.Pick(30, 400)
+			for i := 0; i < rounds; i++ {
+				a, b, c := parts[i%3], parts[(i+1)%3], parts[(i+2)%3]
+				// use after Close, with other partitions' sessions opened meanwhile
+				sa, _ := f.GetSession(a)
+				sa.Close()
+				sb, _ := f.GetSession(b)
+				foreign(sa, a, b, "use after Close while a session of the other partition is open")
+				foreign(sa, a, c, "use after Close")
+				foreign(sb, b, a, "open session next to a closed one")
+				sb.Close()
+				foreign(sa, a, b, "use after Close, the other partition's session closed again")
+				// double Close, then two fresh sessions
+				sx, _ := f.GetSession(c)
+				sx.Close()
+				func() { defer func() { _ = recover() }(); sx.Close() }()
+				sp, _ := f.GetSession(a)
+				sq, _ := f.GetSession(b)
+				foreign(sp, a, b, "fresh session after another session was closed twice")
+				foreign(sq, b, a, "fresh session after another session was closed twice")
+				foreign(sx, c, a, "session that was closed twice")
+				if out, err := sp.Decrypt(ctx, *world.CopyDRR(recs[a])); err == nil && string(out) == "secret of "+a {
+					r.Count("lifecycle_own_roundtrips", 1)
+				} else {
+					r.Count("lifecycle_own_failures", 1)
+				}
+				sp.Close()
+				sq.Close()
+				r.Distinct(fmt.Sprintf("lifecycle|%s|%d|%d", sk.name, ci, i%3))
+			}
+			func() { defer func() { _ = recover() }(); f.Close() }()
+		}
+	}
+}
